@@ -33,7 +33,7 @@ RULE = ('directed corpus (docstring examples; every one of the 35 sanitize keys 
         'level; aliasing; masks) then seeded random nested mappings of depth <= 4, width <= 5. '
         'non-trivial = a non-mapping argument, or a mapping with at least one sensitive str key, nested '
         'mapping or str value; distinct by (spec, secret, call style)')
-REQUIRED_CLAUSES = ['under-warnings-as-errors', 'retry-after-a-failed-call-on-the-same-object', 'documented-keyword-call', 'key-list-cross-check', 'result-new-plain-dict', 'same-keys',
+REQUIRED_CLAUSES = ['reentrant-call-from-the-callers-mapping-answers-as-alone', 'under-warnings-as-errors', 'retry-after-a-failed-call-on-the-same-object', 'documented-keyword-call', 'key-list-cross-check', 'result-new-plain-dict', 'same-keys',
                     'sensitive-key-masked', 'mapping-under-sensitive-key-recursed',
                     'nested-mapping-processed', 'non-dict-mapping-nested',
                     'string-through-mask_password', 'string-changed-by-mask_password',
